@@ -26,3 +26,4 @@ macro_rules! wire_harness {
     };
 }
 instantiate_catalogue!(wire_harness);
+instantiate_derived!(wire_harness);
